@@ -29,6 +29,20 @@ def _mentions_rule_field(test, rulevar: str) -> Set[str]:
     return out
 
 
+def _rule_vars(fnode, fields) -> List[str]:
+    """loop variables that range over entry-point rules: found by role (some attribute of theirs is a field of EntryPointRule)"""
+    fs = set(fields) | {f"is_{x}_available" for x in fields}
+    out = []
+    for n in walk_no_nested(fnode):
+        if isinstance(n, ast.For) and isinstance(n.target, ast.Name):
+            v = n.target.id
+            attrs = {x.attr for x in ast.walk(n) if isinstance(x, ast.Attribute) and isinstance(x.value, ast.Name) and x.value.id == v}
+            # a rule variable is asked for availability flags (is_<field>_available) or for several rule fields
+            if any(a.startswith("is_") and a.endswith("_available") and a in fs for a in attrs) or len(attrs & set(fields)) >= 3:
+                out.append(v)
+    return out
+
+
 def run(model: RepoModel, rep, tier: str):
     rep.not_decided = ("that the matched scopes are the right methods (depends on the scope table computed at run time), the effect on "
                        "taint results, behaviour of rules using the unimplemented args/return_type fields")
@@ -90,8 +104,7 @@ def run(model: RepoModel, rep, tier: str):
 
     def filters_in(f: Func) -> Dict[str, List[ast.If]]:
         out: Dict[str, List[ast.If]] = {}
-        rulevars = [n.target.id for n in walk_no_nested(f.node) if isinstance(n, ast.For) and isinstance(n.target, ast.Name)
-                    and "rule" in n.target.id]
+        rulevars = _rule_vars(f.node, fields)
         for n in walk_no_nested(f.node):
             if isinstance(n, ast.If):
                 for rv in rulevars:
@@ -138,10 +151,16 @@ def run(model: RepoModel, rep, tier: str):
         rep.violation("C20.R1", key, EP, ifs[0].lineno,
                       f"the unit_name restriction is tested with `{norm(ifs[0].test)}`, not against the file name (basename of the unit path): "
                       f"a rule restricted to file X also selects files that merely sit in a directory whose path contains X")
-    for fld, expect in (("lang", "unit_info.lang"), ("unit_path", "unit_info.unit_path"),
-                        ("unit_id", "unit_info.module_id"), ("method_list", "name"), ("method_id", "scope.stmt_id")):
+    # roles in check_rules: the loop variable over the method scopes and the local holding the method's name
+    _outer = next((n for n in meth_filter.node.body if isinstance(n, ast.For) and isinstance(n.target, ast.Name)), None)
+    SCOPE = _outer.target.id if _outer is not None else "scope"
+    NAME = next((n.targets[0].id for n in walk_no_nested(meth_filter.node) if isinstance(n, ast.Assign) and isinstance(n.targets[0], ast.Name)
+                 and any(isinstance(x, ast.Attribute) and x.attr == "name" and isinstance(x.value, ast.Name) and x.value.id == SCOPE for x in ast.walk(n.value))), "name")
+    UI = unit_filter.params[1] if len(unit_filter.params) > 1 else "unit_info"
+    for fld, expect in (("lang", f"{UI}.lang"), ("unit_path", f"{UI}.unit_path"),
+                        ("unit_id", f"{UI}.module_id"), ("method_list", NAME), ("method_id", f"{SCOPE}.stmt_id")):
         ifs = uf.get(fld, []) + mf.get(fld, [])
-        key = f"{EP}::EntryPointRule.{fld}::compared with {expect}"
+        key = f"{EP}::EntryPointRule.{fld}::compared with `{expect}`"
         ok = any(expect in norm(i.test) or any(expect in norm(x.test) for x in ast.walk(i) if isinstance(x, ast.If)) for i in ifs)
         if ok:
             rep.holds("C20.R1", key, EP, ifs[0].lineno if ifs else 0, f"`rule.{fld}` is compared with `{expect}`")
@@ -178,7 +197,8 @@ def run(model: RepoModel, rep, tier: str):
               and isinstance(cfg.stmt[n].targets[0], ast.Name) and cfg.stmt[n].targets[0].id == flag and is_const(cfg.stmt[n].value, False)]
     # the flag is reset per method (inside the scope loop, outside the rule loop)
     key = f"{EP}::check_rules::flag reset per method"
-    rule_loops = [n for n in cfg.g.nodes if cfg.kind[n] == "iter" and isinstance(cfg.stmt[n].target, ast.Name) and "rule" in cfg.stmt[n].target.id]
+    _rv = set(_rule_vars(meth_filter.node, fields))
+    rule_loops = [n for n in cfg.g.nodes if cfg.kind[n] == "iter" and isinstance(cfg.stmt[n].target, ast.Name) and cfg.stmt[n].target.id in _rv]
     scope_iter = [n for n in cfg.g.nodes if cfg.kind[n] == "iter" and isinstance(cfg.stmt[n].target, ast.Name) and cfg.stmt[n].target.id == scope_var]
     if resets and scope_iter and all(r in cfg.loop_body_nodes[scope_iter[0]] for r in resets) \
             and rule_loops and all(cfg.dominates(resets[0], rl) for rl in rule_loops):
